@@ -52,8 +52,20 @@ def rule_decline(ctx, rep):
     for tag, F, E in ctx.each():
         A = balance.analysis(tag, F, E)
         # R-DECLINE: the very same handle comes back
-        for h, name, trait in (("Arc", "try_unique", None), ("Arc", "try_as_unique", None)):
-            for b in F.method(h, name, trait):
+        # role: every function returning Result<UniqueArc-ish, the handle itself> can decline
+        cands = []
+        for b in F.body_list:
+            if b["kind"] not in ("Fn", "AssocFn") or "output" not in b:
+                continue
+            ot = F.ty(b["output"])
+            if ot["k"] == "adt" and ot["path"] == "core::result::Result":
+                okt, errt = [a["t"] for a in ot["args"] if "t" in a][:2]
+                if F.handle_name(F.strip_refs(okt)) == "UniqueArc" and F.handle_name(F.strip_refs(errt)) == "Arc" and b.get("inputs") and F.handle_name(F.strip_refs(b["inputs"][0])) == "Arc":
+                    B0 = cfg.Body(b)
+                    if any(s["k"] == "assign" and s["rv"]["k"] == "agg" and s["rv"].get("variant") == "Err" for bl in b["blocks"] for s in bl["stmts"]):
+                        cands.append(b)
+        for _once in (1,):
+            for b in cands:
                 B = cfg.Body(b)
                 ok = False
                 why = "no `Err(param)` construction found"
@@ -77,7 +89,7 @@ def rule_decline(ctx, rep):
                     rep.bad("R-DECLINE", b["key"] + "/zero-events", balance.path_report(F, b, bad[0], "the decline path must not touch count or ownership"), F.loc(b), tag)
                 else:
                     rep.ok("R-DECLINE", b["key"] + "/zero-events", cfg=tag)
-    rep.floor("R-DECLINE", 4, "try_unique and try_as_unique")
+    rep.floor("R-DECLINE", 4, "the by-value and the by-reference checked conversions to UniqueArc")
 
 
 def run(ctx, rep):
